@@ -96,7 +96,7 @@ def impl_run(case):
         layout["tsvi"] = tsvi
         outs = {k: p for k, p in case["reqs"]} if case["form"] == "dict" else [p for _, p in case["reqs"]]
         try:
-            df = c.run(T_END, DT, outputs=outs, solver="euler", vectorize=vec, verbose=False, clear=True,
+            df = c.run(float(Fr(case.get("t_end", T_END))), DT, outputs=outs, solver="euler", vectorize=vec, verbose=False, clear=True,
                        float_precision="float64", in_place=False)
         except Exception as e:
             return dict(layout=layout, raised=type(e).__name__, msg=str(e)[:200])
@@ -246,7 +246,7 @@ def gen_run(rng, in_guard_only=False):
         if not den and rng.random() < 0.9:
             continue
         vs = {p + (op, var) for p in den}
-        if form == "dict" and len(den) > 1 and (vs & multi_seen) and rng.random() < 0.85:
+        if form == "dict" and len(den) > 1 and (vs & multi_seen) and rng.random() < 0.3:
             continue
         if form == "dict" and len(den) > 1:
             multi_seen |= vs
@@ -333,9 +333,9 @@ Definition r_g6 (c : rcase) := let '(t, L, f, reqs, times, rates, vr, ob) := c i
 Definition r_g7 (c : rcase) := let '(t, L, f, reqs, times, rates, vr, ob) := c in
   covers L (snd vr) (requested t f reqs).
 """
-# VERIF_C06_FIXES=D31,overlap : evaluate the mechanism model with the proposed repairs switched on and drop their guards
-# (used to validate /verif/fixes/proposed_fix_C06_*.diff on a scratch worktree; never set for the normal check)
-FIXES = [x for x in os.environ.get("VERIF_C06_FIXES", "").split(",") if x]
+# The repairs D73 (D31) and D77 (overlapping wildcard keys) have landed: the mechanism model runs with both switches on and
+# their guards are not guards any more.  VERIF_C06_FIXES=none|D31|overlap evaluates an older model (debugging aid only).
+FIXES = [x for x in os.environ.get("VERIF_C06_FIXES", "D31,overlap").split(",") if x and x != "none"]
 HEADER = HEADER.replace("@D31@", "true" if "D31" in FIXES else "false").replace("@OVERLAP@", "true" if "overlap" in FIXES else "false")
 DROPPED = (["names_resolve"] if "D31" in FIXES else []) + (["no_overlap"] if "overlap" in FIXES else [])
 G_GUARDS = ["names_resolve", "not_too_long", "not_too_short"]
